@@ -8,7 +8,7 @@ import manifest_meta as M
 
 checks = []
 for pid in sorted(P.PROPS):
-    meta = M.META[pid]
+    meta = P.META[pid]
     checks.append({
         "property_id": pid,
         "quick_cmd": f"./check {pid} --tier quick",
@@ -21,7 +21,7 @@ for pid in sorted(P.PROPS):
         "technique": meta["technique"],
     })
 all_ids = [json.loads(l)["id"] for l in open(os.path.join(ROOT, "properties.jsonl"))]
-na = [{"property_id": i, "reason": M.NOT_CLAIMED.get(i, "not yet built in this revision: model, theorems and correspondence are in progress (see DESIGN.md §9 build order); no check is registered until it runs green on the unchanged tree")}
+na = [{"property_id": i, "reason": P.NOT_CLAIMED.get(i, "not yet built in this revision: model, theorems and correspondence are in progress (see DESIGN.md §9 build order); no check is registered until it runs green on the unchanged tree")}
       for i in all_ids if i not in P.PROPS]
 manifest = {
     "version": 1,
